@@ -552,79 +552,29 @@ theorem error_message_is_data (r : Route) (ctor m : String) :
     (errObs r ctor (some m)).stackHead = Spec.errorToString (some ctor) (some m) := by
   simp [errObs, format_eq_toString]
 
-theorem errObs_eq (r : Route) (ctor : String) (arg : Option String) (h : Spec.errObsDevs r ctor arg = []) :
+/-- error objects made with a message are exactly as §15.11 describes them, by every route: own `message` =
+    the argument as a string (also the empty one), `name` inherited (own only for custom names), and the constructor
+    called as a function leaves no frame of its own -/
+theorem errObs_eq (r : Route) (ctor : String) (arg : Option String) :
     errObs r ctor arg = Spec.errObs r ctor arg := by
-  simp only [Spec.errObsDevs, List.append_eq_nil_iff] at h
-  obtain ⟨⟨h1, h2⟩, h3⟩ := h
-  have h1 : arg ≠ some "" := by intro h; simp [h] at h1
-  have h2 : ctor ≠ "Error" := by intro h; simp [h] at h2
-  have h3 : ¬ (r = .call ∧ isNativeSub ctor = true) := by intro h; simp [h] at h3
-  simp only [errObs, Spec.errObs, format_eq_toString]
-  have hn : (r == Route.call && isNativeSub ctor) = false := by
-    cases hr : (r == Route.call) <;> cases hs : isNativeSub ctor <;> simp_all
-  cases arg with
-  | none => simp [hn, h2]
-  | some a =>
-    have : a ≠ "" := by intro h; exact h1 (by rw [h])
-    simp [hn, h2, this]
+  simp [errObs, Spec.errObs, format_eq_toString]
 
-theorem sprintf0_id (l : List Char) (h : l.contains '%' = false) : sprintf0 l = l := by
-  induction l with
-  | nil => rfl
-  | cons c r ih =>
-    have hc : c ≠ '%' := by intro hc; simp [hc] at h
-    have hr : r.contains '%' = false := by simp at h ⊢; exact h.2
-    unfold sprintf0
-    simp only [hc, if_false]
-    rw [ih hr]
-
-theorem sprintf0_str (s : String) (h : s.toList.contains '%' = false) : String.ofList (sprintf0 s.toList) = s := by
-  rw [sprintf0_id _ h]; simp
-
-/-- engine errors name the offending user text verbatim, unless the text contains `%` and the whole error text is
-    used as a format string (region `msg_format_verbs`) -/
-theorem engine_msg_eq (em : EngineMsg) (h : Spec.engineMsgDevs em = []) : engineMsg em = Spec.engineMsg em := by
-  cases em with
-  | evalToken t =>
-    have ht : t.toList.contains '%' = false := by
-      cases hc : t.toList.contains '%' <;> simp_all [Spec.engineMsgDevs]
-    simp only [engineMsg, Spec.engineMsg]
-    rw [sprintf0_str]
-    simp only [String.toList_append, List.contains_append, ht, Bool.or_false]
-    decide
-  | jsonChar c =>
-    have hc : c.toList.contains '%' = false := by
-      cases hc : c.toList.contains '%' <;> simp_all [Spec.engineMsgDevs]
-    simp only [engineMsg, Spec.engineMsg]
-    rw [sprintf0_str]
-    simp only [String.toList_append, List.contains_append, hc, Bool.or_false]
-    decide
-  | unresolvable n => rfl
-  | notFunction n => rfl
+/-- engine errors name the offending user text verbatim (no format verbs are interpreted) -/
+theorem engine_msg_eq (em : EngineMsg) : engineMsg em = Spec.engineMsg em := by
+  cases em <;> rfl
 
 /-- `Error.prototype.toString` follows §15.11.4.4 on every this value except primitives (region
-    `tostring_non_object_this`: primitives are wrapped instead of rejected, undefined arrives as the global object) -/
-theorem error_proto_toString (k : ThisKind) (h : k ≠ .prim) (hu : k ≠ .undef) :
+    `tostring_non_object_this`: an undefined this arrives as the global object) -/
+theorem error_proto_toString (k : ThisKind) (hu : k ≠ .undef) :
     errorProtoToString k = Spec.errorProtoToString k := by
   cases k with
   | undef => exact absurd rfl hu
   | null => rfl
-  | prim => exact absurd rfl h
+  | prim => rfl
   | object n m => simp [errorProtoToString, Spec.errorProtoToString, format_eq_toString]; cases n <;> cases m <;> rfl
 
-/-- Dev witnesses: `new Error("")` (message own but undefined; own `name`), `TypeError("x")` (native frame),
-    `eval("%")` (format verbs), `Error.prototype.toString.call(1)` -/
-example : errObs .new_ "RangeError" (some "") ≠ Spec.errObs .new_ "RangeError" (some "") ∧
-    Spec.errObsDevs .new_ "RangeError" (some "") = ["msg_empty_string_undefined"] := by decide
-example : errObs .new_ "Error" (some "q") ≠ Spec.errObs .new_ "Error" (some "q") ∧
-    Spec.errObsDevs .new_ "Error" (some "q") = ["error_own_name"] := by decide
-example : errObs .call "TypeError" (some "x") ≠ Spec.errObs .call "TypeError" (some "x") ∧
-    Spec.errObsDevs .call "TypeError" (some "x") = ["ctor_call_native_frame"] := by decide
-example : sprintf0 ['n', ' ', '%'] = ['n', ' ', '%', '!', '(', 'N', 'O', 'V', 'E', 'R', 'B', ')'] ∧
-    sprintf0 ['%', '=', 'x'] = ['%', '!', '=', '(', 'M', 'I', 'S', 'S', 'I', 'N', 'G', ')', 'x'] ∧
-    sprintf0 ['1', '%', '%'] = ['1', '%'] := by decide
-example : errorProtoToString .prim = some "Error" ∧ Spec.errorProtoToString .prim = none := by decide
-
+/-- Dev `tostring_non_object_this`: `Error.prototype.toString.call(undefined)` -/
+example : errorProtoToString .undef = some "Error" ∧ Spec.errorProtoToString .undef = none := by decide
 
 /-! ## classes -/
 
